@@ -1331,9 +1331,8 @@ def do_hpround(env, st, i):
     if err:
         return fail(i, err)
     wdt = np.float64 if np.dtype(A.dtype).kind in 'iu' else A.dtype
-    valid = A > UNSEEN
-    if np.dtype(A.dtype).kind in 'iu':
-        valid = A != m._sentinel
+    # the property: every entry that is not UNSEEN (not the sentinel, for integers) is reproduced
+    valid = A != np.dtype(A.dtype).type(UNSEEN) if np.dtype(A.dtype).kind == 'f' else (A != m._sentinel)
     want = np.where(valid, A.astype(wdt), np.dtype(wdt).type(UNSEEN))
     if not np.array_equal(got, want):
         return fail(i, 'dense -> sparse -> dense does not reproduce the HEALPix array')
@@ -1591,6 +1590,15 @@ def do_geom(env, st, i):
     from healsparse import geom as G
     mode = st['mode']
     pairs = []
+    # shapes that render no pixel at all are skipped (hpgeom's helpers reject empty pixel arrays)
+    for s in (st['shapes'] if mode == 'realize' else [st['shape']]):
+        nsr = s.get('nside_render') or (st.get('ns') or env.maps[st.get('h', st.get('like'))].nside_sparse)
+        probe = make_shape(dict(s, nside_render=None), 1)
+        try:
+            if len(probe.get_pixels(nside=nsr)) == 0:
+                return []
+        except Exception:  # noqa
+            return []
     if mode in ('get_map', 'get_map_like'):
         out = st['out']
         value = st['value']
